@@ -33,11 +33,14 @@ type Op struct {
 
 // Step is one element of the script.
 type Step struct {
-	Kind        string `json:"step"` // commit | branch | checkout | merge
-	Branch      string `json:"branch,omitempty"`
-	Author      string `json:"author,omitempty"`
-	Email       string `json:"email,omitempty"`
-	Date        string `json:"date,omitempty"` // "<epoch> <tz>"
+	Kind   string `json:"step"` // commit | branch | checkout | merge
+	Branch string `json:"branch,omitempty"`
+	Author string `json:"author,omitempty"`
+	Email  string `json:"email,omitempty"`
+	Date   string `json:"date,omitempty"` // "<epoch> <tz>" (committer date; author date too unless AuthorDate is set)
+	// AuthorDate, when set, is an author date EARLIER than the committer date and possibly in another time zone
+	// (a rebased / cherry-picked / amended commit keeps its old author date): %ad then decreases along the log.
+	AuthorDate  string `json:"author_date,omitempty"`
 	Subject     string `json:"subject,omitempty"`
 	SubjectKind string `json:"subject_kind,omitempty"`
 	// Message, when set, is the complete commit message passed with `git commit -F` (a first paragraph of 70-100 KB
@@ -58,6 +61,8 @@ type Opts struct {
 	Plain                  bool // no spaces in paths, short ASCII authors (used where a table printer would wrap cells)
 	Conventional           bool // mostly conventional-commit subjects (C15 CLI slice)
 	LongSubject            bool // one ordinary commit gets a first message paragraph of 70-100 KB
+	OldAuthorDates         bool // in a third of the scripts a quarter of the commits carry an older author date (other time zone)
+	TailCollisions         bool // commits that create/delete P and modify Q where P ends with Q (docs/README.md + README.md)
 }
 
 // ---------------------------------------------------------------------------------------------------------------
@@ -81,11 +86,12 @@ var ccTypes = []string{"fix", "feat", "docs", "refactor", "chore", "test", "buil
 var ccScopes = []string{"parser", "core", "cli", "git log", "api/v2"}
 
 type gen struct {
-	r      *run.Rand
-	o      Opts
-	nextID int
-	epoch  int64
-	tz     string
+	r        *run.Rand
+	o        Opts
+	nextID   int
+	epoch    int64
+	tz       string
+	oldDates bool
 }
 
 type file struct {
@@ -281,6 +287,9 @@ func Generate(r *run.Rand, o Opts) *Script {
 	}
 	g.tz = r.Pick([]string{"+0000", "+0800", "-0500", "+0530", "+0000"})
 	g.epoch = 1546300800 + int64(r.Intn(400))*86400 // 2019-01-01 .. early 2020
+	if o.OldAuthorDates {
+		g.oldDates = r.Chance(1, 3)
+	}
 	n := r.Range(o.MinCommits, o.MaxCommits)
 	if r.Chance(1, 2) && o.MinCommits+5 < o.MaxCommits {
 		n = r.Range(o.MinCommits, o.MinCommits+5)
@@ -427,8 +436,14 @@ func (g *gen) commitMeta(authors []string, kind string) Step {
 	g.epoch += []int64{3600, 86400, 3*86400 + 1800}[r.Intn(3)]
 	a := authors[r.Intn(len(authors))]
 	st := Step{Kind: "commit", Author: a, Email: fmt.Sprintf("u%d@example.org", r.Intn(50)), Date: fmt.Sprintf("%d %s", g.epoch, g.tz)}
+	aEpoch, aTz := g.epoch, g.tz
+	if g.oldDates && r.Chance(1, 4) {
+		aTz = r.Pick([]string{"+0900", "-0600", "+0000", "+1200", "-1000"})
+		aEpoch = g.epoch - int64(r.Range(0, 40))*86400 - int64(r.Range(600, 86000))
+		st.AuthorDate = fmt.Sprintf("%d %s", aEpoch, aTz)
+	}
 	if kind == "" {
-		st.Subject, st.SubjectKind = g.subject(a, shortDate(g.epoch, g.tz))
+		st.Subject, st.SubjectKind = g.subject(a, shortDate(aEpoch, aTz))
 	}
 	return st
 }
@@ -471,8 +486,59 @@ func (g *gen) ops(t *tree, restrict, newOwner int, deleted *[]string, mayRecreat
 			default:
 				kind = "recreate"
 			}
+			if g.o.TailCollisions && r.Chance(1, 12) {
+				kind = "tail"
+			}
 		}
 		switch kind {
+		case "tail":
+			// name-tail collision inside one commit: P is created or deleted, Q (P ends with Q's full path) is only modified
+			modify := func(q *file) {
+				touched[q] = true
+				if q.binary {
+					g.newBlob(q)
+				} else {
+					g.edit(q, false)
+				}
+				c := q.content()
+				ops = append(ops, Op{Kind: "modify", Path: q.path, Binary: q.binary, Note: "tail-of-created-or-deleted-path", Bytes: len(c), Content: c})
+				usedPaths++
+			}
+			var pp, qq *file
+			for _, a := range cand {
+				for _, b := range cand {
+					if a != b && strings.HasSuffix(a.path, b.path) && pp == nil {
+						pp, qq = a, b
+					}
+				}
+			}
+			if pp != nil && r.Bool() {
+				modify(qq)
+				touched[pp] = true
+				t.remove(pp)
+				*deleted = append(*deleted, pp.path)
+				ops = append(ops, Op{Kind: "delete", Path: pp.path, Binary: pp.binary, Note: "name-ends-with-modified-path"})
+				usedPaths++
+				continue
+			}
+			q := cand[r.Intn(len(cand))]
+			dir := r.Pick([]string{"docs", "legacy", "vendor/x", "d/e"})
+			p := dir + "/" + q.path
+			if !g.o.Plain && !strings.Contains(q.path, "/") && r.Bool() {
+				p = dir + "/b " + q.path // `d/e/b c.txt` ends with `c.txt`
+			}
+			if t.has(p) || !free(t, p) {
+				continue
+			}
+			modify(q)
+			g.nextID++
+			f := &file{path: p, id: g.nextID, owner: newOwner}
+			g.newText(f, r.Range(1, 20))
+			t.files = append(t.files, f)
+			touched[f] = true
+			c := f.content()
+			ops = append(ops, Op{Kind: "create", Path: p, Note: "name-ends-with-modified-path", Bytes: len(c), Content: c})
+			usedPaths++
 		case "create", "recreate":
 			var p string
 			note := ""
@@ -712,7 +778,11 @@ func Build(sc *Script, repo string) error {
 		}
 	}
 	for i, st := range sc.Steps {
-		id := []string{"GIT_AUTHOR_NAME=" + st.Author, "GIT_AUTHOR_EMAIL=" + st.Email, "GIT_AUTHOR_DATE=" + st.Date,
+		authorDate := st.Date
+		if st.AuthorDate != "" {
+			authorDate = st.AuthorDate
+		}
+		id := []string{"GIT_AUTHOR_NAME=" + st.Author, "GIT_AUTHOR_EMAIL=" + st.Email, "GIT_AUTHOR_DATE=" + authorDate,
 			"GIT_COMMITTER_NAME=Committer Bot", "GIT_COMMITTER_EMAIL=ci@example.org", "GIT_COMMITTER_DATE=" + st.Date}
 		switch st.Kind {
 		case "branch":
